@@ -2,6 +2,7 @@ import HpoProofs.NumReal
 import HpoProofs.Ic
 import HpoProps.C02
 import HpoProofs.ObsEq
+import HpoProofs.Bulk
 /-!
 # C03 — information content equals −ln(n/N) for each annotation kind
 
@@ -134,6 +135,15 @@ theorem C03_count_facts (tops : List BOp) (o oc : Onto) (hrun : runB tops {} = s
     apply List.Nodup.length_le_of_subset h1
     intro r hr
     exact H.upclosed _ _ rank hcl k d r hr a ha
+
+/-! ### tie machinery: large record sets -/
+
+/-- The one-pass bulk insertion the driver runs for ontologies with tens of thousands of records
+(the u16 limit of the calculation, ic close to 0) is the `count`-fold repetition of the Builder
+call `add_gene` / `add_omim_disease` / `add_orpha_disease` — the harness makes exactly those calls. -/
+theorem C03_bulk_is_repeated_add (o : Onto) (k : Kind) (name : List Char) (first count : Nat) :
+    o.addRecRangeFast k name first count = o.addRecRange k name first count :=
+  Onto.addRecRangeFast_eq o k name first count
 
 /-! ### non-vacuity -/
 example : (icValue (icPair 4 1) : Option ℝ) = some (-Real.log ((1 : ℝ) / 4)) := by
